@@ -675,10 +675,11 @@ def evNow : Ev → Nat
   | .failNext _ => 0
   | .failBind _ => 0
   | .stamp _ _ _ _ _ => 0
+  | .syncTimeout => 0
 
 /-- The arm of the event loop an event belongs to (`none`: the configuration / injection events, which do not
-touch the links; the verdict stamps are the tail of the housekeeping arm and only need `Closed.soft`: they
-write four fields outside the accounting view). -/
+touch the links; the verdict stamps and `sync_conn_timeout` are the tail / head of the housekeeping arm and only need
+`Closed.soft`: they write fields outside the accounting view). -/
 def evArm : Ev → Option Arm
   | .client _ _ => some .client
   | .uplink _ _ _ => some .uplink
@@ -689,10 +690,14 @@ def evArm : Ev → Option Arm
   | .failNext _ => none
   | .failBind _ => none
   | .stamp _ _ _ _ _ => some .hk
+  | .syncTimeout => some .hk
 
 /-- A verdict stamp is outside the accounting view and writes no time stamp. -/
 theorem soft_verdicts (now : Nat) (weak ld ccb : Bool) (cct : Nat) (l : FLink F) :
     Soft now l { l with weak := weak, lossDegraded := ld, ccBackingOff := ccb, ccTarget := cct } := soft_rfl
+
+/-- `sync_conn_timeout` writes the timeout copy only: outside the accounting view, no time stamp. -/
+theorem soft_syncOne (now T : Nat) (l : FLink F) : Soft now l { l with connTimeoutMs := T } := soft_rfl
 
 theorem soft_stampOne (now idx : Nat) (weak ld ccb : Bool) (cct : Nat) (j : Nat) (l : FLink F) :
     Soft now l (Hk.stampOne idx weak ld ccb cct j l) := by
@@ -728,5 +733,7 @@ theorem step_all {P : FLink F → Prop} (s : Sys F) (e : Ev)
       simp only [Option.map_some, Option.some.injEq] at hj'
       rw [← hj']
       exact (hc .hk rfl).soft _ _ (soft_stampOne 0 idx weak ld ccb cct j l) (h l (List.mem_of_getElem? hlj))
+  | syncTimeout =>
+    exact all_map h _ fun l hl => (hc .hk rfl).soft _ _ (soft_syncOne 0 s.cfg.connTimeoutMs l) hl
 
 end Srtla.SysInv
